@@ -169,7 +169,7 @@ BCVerdict(r) ==
            match(e, s) == e.kind = kindOf(s) /\ \E w \in witOf(e.id) : Proportional(w, MainQuad(D, s))
        IN { <<"entry_missing_or_repeated", s.n>> :
               s \in { x \in bounding : Cardinality({ i \in 1..Len(entries) : match(entries[i], x) }) # 1 } }
-          \cup { <<"entry_for_no_flagged_bounding_surface", i>> :
+          \cup { <<"entry_for_no_flagged_bounding_surface", entries[i].id>> :
                    i \in { j \in 1..Len(entries) : ~\E s \in bounding : match(entries[j], s) } }
 
 Clauses == IF "CLAUSES" \in DOMAIN IOEnv THEN IOEnv.CLAUSES ELSE "owner,valid"
